@@ -101,12 +101,14 @@ def case_strategy():
         n = draw(st.sampled_from([6, 12, 20, 30]))
         ops = []
         for _ in range(n):
-            k = draw(st.sampled_from(["call"] * 8 + ["reg", "unreg", "noop", "derive"]))
+            k = draw(st.sampled_from(["call"] * 8 + ["reg", "unreg", "noop", "derive", "dupreg"]))
             if k == "call":
                 ops.append(["call", draw(st.integers(0, len(pool) - 1))])
             else:
                 ops.append([k, draw(st.integers(0, 9))])
-        return {"methods": ms["methods"], "host": ms["host"], "pool": pool, "ops": ops}
+        return {"methods": ms["methods"], "host": ms["host"], "pool": pool, "ops": ops,
+                # allow_replacement=False: registering a signature that is already present is REFUSED (no change)
+                "noreplace": draw(st.booleans())}
 
     return _case()
 
@@ -117,8 +119,15 @@ def run_case(spec):
     counter = Counter()
     env["__custom__"] = make_custom(env, counter)
     mutable = spec["host"] != "mc"
+    if spec.get("noreplace"):
+        from vlib import model as M
+
+        keys = [R.canon(M.sig_key(m)) for m in spec["methods"]]
+        if len(set(keys)) != len(keys):
+            spec = dict(spec, noreplace=False)  # the set itself repeats a signature: it needs replacement
     try:
-        prog = Program({"hier": HIER, "methods": spec["methods"], "host": spec["host"]}, env=env, build=mutable is False or True)
+        prog = Program({"hier": HIER, "methods": spec["methods"], "host": spec["host"]}, env=env, build=mutable is False or True,
+                       ovld_kwargs={"allow_replacement": False} if (spec.get("noreplace") and mutable) else None)
     except Exception as e:  # noqa: BLE001
         res.fail(f"program construction failed: {type(e).__name__}: {e}", None)
         return res
@@ -188,6 +197,14 @@ def run_case(spec):
                     res.fail(f"add_mixins() with nothing to add raised {r.brief()}", None)
                     break
                 res.label("op:add_mixins-nothing")
+            elif mutable and op[0] == "dupreg" and spec.get("noreplace") and registered:
+                # a registration that is refused leaves the set of methods as it was
+                mid = registered[op[1] % len(registered)]
+                r = capture(prog.register, mid)
+                if r.kind == "ok":
+                    res.fail(f"step {step}: allow_replacement=False, yet registering method {mid} again was accepted", None)
+                    break
+                res.label("op:refused-duplicate-registration")
             elif mutable and op[0] == "reg":
                 cand = [m["id"] for m in spec["methods"] if m["id"] not in registered]
                 if not cand:
